@@ -10179,6 +10179,33 @@ let claims_inert pre cs =
 let known_C20 =
   kf_c20
 
+(** val holds_C06_modes : vt -> func -> vt -> bool **)
+
+let holds_C06_modes pre f post =
+  match f with
+  | Decrst _ ->
+    (&&) (Nat.eqb pre.vterm.top post.vterm.top)
+      (Nat.eqb pre.vterm.bot post.vterm.bot)
+  | Decset _ ->
+    (&&) (Nat.eqb pre.vterm.top post.vterm.top)
+      (Nat.eqb pre.vterm.bot post.vterm.bot)
+  | Rm _ ->
+    (&&) (Nat.eqb pre.vterm.top post.vterm.top)
+      (Nat.eqb pre.vterm.bot post.vterm.bot)
+  | Sm _ ->
+    (&&) (Nat.eqb pre.vterm.top post.vterm.top)
+      (Nat.eqb pre.vterm.bot post.vterm.bot)
+  | _ -> true
+
+(** val holds_C06_resize : vt -> vt -> bool **)
+
+let holds_C06_resize pre post =
+  if Nat.eqb pre.vterm.rows post.vterm.rows
+  then (&&) (Nat.eqb pre.vterm.top post.vterm.top)
+         (Nat.eqb pre.vterm.bot post.vterm.bot)
+  else (&&) (Nat.eqb post.vterm.top O)
+         (Nat.eqb post.vterm.bot (sub post.vterm.rows (S O)))
+
 (** val logical_go : line list -> cell list -> cell list list **)
 
 let rec logical_go ls cur =
